@@ -153,6 +153,9 @@ def build_co2(c):
 def build_objects(scen):
     """fresh user objects for a scenario (dict of constructor arguments of AquaCropModel)"""
     iw = scen.get("iwc", {"wc_type": "Prop", "method": "Layer", "depth_layer": [1], "value": ["FC"]})
+    if scen.get("arrays"):
+        # the caller hands numpy arrays where lists are accepted (the usual product of a parameter sweep)
+        return _build_objects_arrays(scen, iw)
     return dict(
         sim_start_time=scen["start"], sim_end_time=scen["end"], weather_df=weather_of(scen),
         soil=build_soil(scen["soil"]), crop=build_crop(scen["crop"]),
@@ -163,6 +166,35 @@ def build_objects(scen):
         field_management=build_fm(scen.get("fm")),
         fallow_field_management=build_fm(scen.get("ffm")),
         groundwater=build_gw(scen.get("gw")),
+        co2_concentration=build_co2(scen.get("co2")),
+        off_season=bool(scen.get("off_season", False)),
+    )
+
+
+def _build_objects_arrays(scen, iw):
+    def arr(v):
+        return np.array(v, dtype=float) if all(isinstance(x, (int, float)) for x in v) else list(v)
+    irr = scen.get("irr")
+    if irr is not None:
+        irr = {k: (arr(v) if isinstance(v, list) and k != "schedule" else v) for k, v in irr.items()}
+    gw = scen.get("gw")
+    gwo = None
+    if gw is not None:
+        gwo = GroundWater(water_table=gw.get("water_table", "Y"), method=gw.get("method", "Constant"),
+                          dates=list(gw.get("dates", [])), values=arr(list(gw.get("values", []))))
+    soil = dict(scen["soil"])
+    if "dz" in soil:
+        soil["dz"] = arr(soil["dz"])
+    return dict(
+        sim_start_time=scen["start"], sim_end_time=scen["end"], weather_df=weather_of(scen),
+        soil=build_soil(soil), crop=build_crop(scen["crop"]),
+        initial_water_content=InitialWaterContent(wc_type=iw["wc_type"], method=iw["method"],
+                                                  depth_layer=arr(iw["depth_layer"]) if iw["method"] == "Depth" else list(iw["depth_layer"]),
+                                                  value=arr(iw["value"])),
+        irrigation_management=build_irr(irr),
+        field_management=build_fm(scen.get("fm")),
+        fallow_field_management=build_fm(scen.get("ffm")),
+        groundwater=gwo,
         co2_concentration=build_co2(scen.get("co2")),
         off_season=bool(scen.get("off_season", False)),
     )
@@ -299,6 +331,13 @@ def random_gw(rng, start, end):
     pts = sorted(set([0] + rng.integers(0, len(ds), 3).tolist()))
     dates = [ds[i].strftime("%Y-%m-%d") for i in pts]
     vals = [float(rng.choice([0.04, 0.12, 0.4, 1.0, 1.5, 2.5, 4.0, 12.0])) for _ in pts]
+    if k == 1 and len(dates) > 1 and rng.random() < 0.6:
+        # a monitoring record that begins before the simulated period (the depth observed last before the start holds
+        # until the next observation) and may run on after it
+        dates[0] = (ds[0] - pd.Timedelta(days=int(rng.integers(1, 200)))).strftime("%Y-%m-%d")
+        if rng.random() < 0.5:
+            dates.append((ds[-1] + pd.Timedelta(days=int(rng.integers(1, 200)))).strftime("%Y-%m-%d"))
+            vals.append(float(rng.choice([0.4, 1.0, 2.5])))
     return {"water_table": "Y", "method": "Constant" if k == 1 else "Variable", "dates": dates,
             "values": vals}
 
@@ -376,6 +415,10 @@ def gen_scenario(rng, idx, strata=None):
     if gw is None:
         gw = rng.random() < 0.25
     scen["gw"] = random_gw(rng, start, end) if gw else None
+    if "gw_spec" in st:
+        g = st["gw_spec"]
+        scen["gw"] = {"water_table": "Y", "method": g["method"], "values": [float(v) for v in g["values"]],
+                      "dates": [(pd.Timestamp(start) + pd.Timedelta(days=int(o))).strftime("%Y-%m-%d") for o in g["offsets"]]}
     if scen["gw"] is not None and "gw_values" in st:
         scen["gw"]["values"] = [float(st["gw_values"][i % len(st["gw_values"])]) for i in range(len(scen["gw"]["values"]))]
     if scen["gw"] is not None and st.get("gw_shallow"):
@@ -383,6 +426,8 @@ def gen_scenario(rng, idx, strata=None):
     c = rng.random()
     scen["co2"] = None if c < 0.6 else ({"constant": True, "current": float(rng.choice([0, 300, 369.41, 450, 700]))}
                                         if c < 0.85 else {"constant": False})
+    if "co2" in st:
+        scen["co2"] = copy.deepcopy(st["co2"])
     scen["off_season"] = bool(st.get("off_season") if "off_season" in st else rng.random() < 0.4)
     return scen
 
@@ -453,6 +498,14 @@ QUICK_STRATA = [
     dict(crop="Wheat", station="tunis_climate.txt", irr_method=0, soil="SiltClayLoam", soil_kind="builtin", gw=True,
          gw_values=[12.0, 30.0], n_seasons=1, start_mode="at",
          iwc={"wc_type": "Pct", "method": "Layer", "depth_layer": [1], "value": [70.0]}),
+    # the run starts shortly after a planting date (the first season is planted in the NEXT calendar year) under a
+    # steeply rising yearly CO2 series: a season's concentration is that of its planting year, not of its number
+    dict(crop="Wheat", station="tunis_climate.txt", irr_method=0, soil="Loam", soil_kind="builtin", n_seasons=2,
+         start_mode="after", off_season=False, planting="10/15",
+         co2={"constant": False, "series": [[1900, 300.0], [1975, 330.0], [1980, 380.0], [1985, 460.0], [1990, 540.0], [2100, 700.0]]}),
+    # a stepwise ("Constant") water-table record that begins before the simulated period
+    dict(crop="Barley", station="brussels_climate.txt", irr_method=0, soil="Loam", soil_kind="builtin", n_seasons=1,
+         start_mode="before", off_season=True, gw_spec={"method": "Constant", "offsets": [-47, 60, 170], "values": [1.5, 0.9, 2.0]}),
     # dry seed bed (delayed germination) under stage-dependent thresholds
     dict(crop="Maize", station="champion_climate.txt", irr_method=1, soil="SiltLoam", soil_kind="builtin", n_seasons=1,
          start_mode="at", iwc={"wc_type": "Pct", "method": "Layer", "depth_layer": [1], "value": [10.0]}),
